@@ -157,16 +157,15 @@ theorem forest_add {d : Nat} {s : Topo} {q : QI} {sw : Bool} (hF : Forest s) (hq
       · exact Or.inr ⟨p, Or.inr hp, hpn, hip⟩
   · exact ranked_add hF.ranked hq0 hfresh hnopar hself
   · intro p c
-    simp only [addState, List.mem_cons, List.mem_filter, Prod.mk.injEq, bne_iff_ne, ne_eq]
+    simp only [addState, List.mem_cons, Prod.mk.injEq]
     constructor
-    · rintro (⟨rfl, rfl⟩ | ⟨hk, _⟩)
+    · rintro (⟨rfl, rfl⟩ | hk)
       · exact ⟨q, Or.inl rfl, rfl, rfl⟩
       · obtain ⟨c', hc', h1, h2⟩ := (hF.kidsOK p c).mp hk
         exact ⟨c', Or.inr hc', h1, h2⟩
     · rintro ⟨c', (rfl | hc'), h1, h2⟩
       · exact Or.inl ⟨h2.symm, h1.symm⟩
-      · refine Or.inr ⟨(hF.kidsOK p c).mpr ⟨c', hc', h1, h2⟩, ?_⟩
-        intro e; exact hnopar c' hc' (h2.trans e)
+      · exact Or.inr ((hF.kidsOK p c).mpr ⟨c', hc', h1, h2⟩)
 
 theorem forest_upd {d : Nat} {s : Topo} {q : QI} {sw hp : Bool} (hF : Forest s)
     (h : (validUpdate d s q sw hp).2 = true) : Forest (validUpdate d s q sw hp).1 := by
